@@ -239,6 +239,9 @@ def params(draw, tier):
     if draw(st.booleans()):
         p["n_int"] = {"mode": "per", "lo": 0 if p["kind"] != "moebius" else 1, "hi": draw(st.integers(1, 40)),
                       "seed": draw(st.integers(0, 2 ** 32 - 1))}
+    if p["kind"] not in ("moebius", "triborder") and draw(st.integers(0, 3)) == 0:
+        # many two-point interfaces: several contractions in one mesh
+        p["n_int"] = {"mode": "per", "lo": 0, "hi": draw(st.integers(0, 2)), "seed": draw(st.integers(0, 2 ** 32 - 1))}
     p["ne"] = draw(st.integers(1, 12))
     p["replace_short"] = draw(st.booleans())
     p["omit_default"] = draw(st.booleans())
@@ -303,7 +306,7 @@ def run_serial(ctx):
 
 
 def run(ctx):
-    n = ctx.budget(quick=300, thorough=1000)
+    n = ctx.budget(quick=450, thorough=1000)
     drive(ctx, params(ctx.tier), check_case, n, label="tissue")
 
 
